@@ -722,6 +722,7 @@ with exec (fuel : nat) (esc : bool) (s : st) (t : stmt) {struct fuel} : outcome 
         bind (eval fuel esc s iter) (fun '(iv, s1) =>
         bind (match iv with
               | VList l => Ok l
+              | VStr _ t => Ok (map (fun ch => VStr false [ch]) t)     (* a string iterates over its characters *)
               | VUndef => if u_strictish m then Err E_UndefinedError else Ok []
               | VSilent => Ok []
               | _ => Err E_InvalidOperation end) (fun items =>
